@@ -40,6 +40,10 @@ type Cfg struct {
 	Others []int  `json:"others"`          // parameters of the initial never-blocking rules of the same module and resource
 	RPos   int    `json:"r_pos"`           // position of R in the initial list
 	RDup   bool   `json:"r_dup,omitempty"` // the initial list holds R twice (both copies are unchanged rules of every reload)
+	// Twin: a scripted scenario instead of the random history. Rule X is driven into its blocking state; rule Y, a
+	// copy of X under another ID, is added (it has never seen a request); X is removed. Y is unchanged by that last
+	// load, so it keeps ITS state - none - and the next request is admitted without waiting.
+	Twin bool `json:"twin,omitempty"`
 }
 
 type P struct{}
@@ -51,7 +55,7 @@ func (P) Engine() string { return "E1" }
 
 func (P) Describe() harness.Description {
 	return harness.Description{
-		MustHit: []string{"rule_modified_neutrally_keeps_counters", "unchanged_rule_listed_twice", "reload_compound", "reload_whole_set", "reload_per_resource", "reload_reorders", "reload_modifies_other_with_same_stat_params", "trace_has_block_and_admit", "modified_rule_keeps_statistics", "modified_breaker_rule_compared_over_whole_history", "breaker_of_a_user_registered_strategy"},
+		MustHit: []string{"rule_modified_neutrally_keeps_counters", "unchanged_rule_listed_twice", "reload_compound", "reload_whole_set", "reload_per_resource", "reload_reorders", "reload_modifies_other_with_same_stat_params", "trace_has_block_and_admit", "modified_rule_keeps_statistics", "modified_breaker_rule_compared_over_whole_history", "breaker_of_a_user_registered_strategy", "twin_rule_added_then_original_removed"},
 		Level:   "exploration",
 		Rule: "case = (kind of the unchanged rule R: flow throttling / warm-up / reject with a private window, circuit breaker (built-in strategy, or a strategy registered by the user whose breaker keeps all state in its object), hotspot QPS, hotspot concurrency; 0-2 never-blocking rules of the same module on the same resource; 20-80 traffic ops (requests with arguments, holds, completions with errors, ticks) with 1-4 reloads inserted, each a compound of 1-3 edits: each keeps R field-for-field identical (fresh object) and adds / removes / modifies (also with unchanged statistic parameters) / reorders the others, or duplicates R where that is behaviour-neutral; whole-set and per-resource paths). " +
 			"Run A executes the history without the reloads, run B with them, after a full reset of process-global state; the decision traces (admit / block type / requested wait) on R's resource must be identical. A second oracle modifies R itself keeping its statistic parameters (private-window flow rule: threshold change) and requires the decisions to equal a model whose window keeps the pre-reload counts. " +
@@ -71,6 +75,9 @@ func (P) Gen(rng *sim.Rng, tier string) *harness.Case {
 	}
 	cfg.RPos = rng.Intn(len(cfg.Others) + 1)
 	cfg.RDup = rng.Chance(0.2)
+	if rng.Chance(0.06) && (cfg.Kind == kThrottle || cfg.Kind == kStandalone || cfg.Kind == kBreaker || cfg.Kind == kHotQPS) {
+		cfg.Twin = true
+	}
 	var ops []harness.Op
 	started := 0
 	nReload := rng.Range(1, 4)
@@ -464,6 +471,10 @@ func (P) Exec(c *harness.Case) *harness.Outcome {
 	if cfg.Kind < 0 || cfg.Kind >= nKinds || cfg.P1 <= 0 || cfg.P2 <= 0 || len(c.Callers) == 0 {
 		return o
 	}
+	if cfg.Twin {
+		execTwin(&cfg, o)
+		return o
+	}
 	// does the history modify R itself? then the A/B comparison only covers the prefix before that reload
 	b, first, mods, _ := run(c, &cfg, o, true, 0)
 	if o.Failed() {
@@ -601,6 +612,94 @@ func (l *latch) CurrentState() cb.State {
 func (l *latch) OnRequestComplete(rt uint64, err error) {
 	if err != nil {
 		l.errs++
+	}
+}
+
+// execTwin: see Cfg.Twin. P2's parity decides whether Y is listed before or after X, Others' length whether the
+// loads are whole-set or per-resource.
+func execTwin(cfg *Cfg, o *harness.Outcome) {
+	env := harness.Reset(cfg.Origin*1e6, harness.DefaultGeometry())
+	var waited time.Duration
+	env.Clock.OnSleep = func(d time.Duration) { waited += d }
+	perRes := len(cfg.Others)%2 == 1
+	yFirst := cfg.P2%2 == 0
+	loadIDs := func(ids ...string) {
+		harness.Call(o, "C14.load-panicked", 0, func() {
+			switch cfg.Kind {
+			case kThrottle, kStandalone:
+				var l []*flow.Rule
+				for _, id := range ids {
+					r := flowR(cfg)
+					r.ID = id
+					l = append(l, r)
+				}
+				if perRes {
+					_, _ = flow.LoadRulesOfResource(res, l)
+				} else {
+					_, _ = flow.LoadRules(l)
+				}
+			case kBreaker:
+				var l []*cb.Rule
+				for _, id := range ids {
+					r := cbR(cfg, 0)
+					r.Id = id
+					l = append(l, r)
+				}
+				if perRes {
+					_, _ = cb.LoadRulesOfResource(res, l)
+				} else {
+					_, _ = cb.LoadRules(l)
+				}
+			default:
+				var l []*hotspot.Rule
+				for _, id := range ids {
+					r := hotR(cfg)
+					r.ID = id
+					l = append(l, r)
+				}
+				if perRes {
+					_, _ = hotspot.LoadRulesOfResource(res, l)
+				} else {
+					_, _ = hotspot.LoadRules(l)
+				}
+			}
+		})
+	}
+	// one request for argument 7; fail: it completes with an error
+	request := func(fail bool) (admitted bool, wait time.Duration) {
+		waited = 0
+		harness.Call(o, "C14.panic", 0, func() {
+			e, _ := sentinel.Entry(res, harness.EntryOpts(1, false, []interface{}{7}, nil, nil)...)
+			if e != nil {
+				admitted = true
+				if fail {
+					sentinel.TraceError(e, errors.New("biz"))
+				}
+				e.Exit()
+			}
+		})
+		return admitted, waited
+	}
+	loadIDs("X")
+	held := false // X holds something against the next request (it would block it or make it wait)
+	for i := 0; i < 40 && !held && !o.Failed(); i++ {
+		adm, wait := request(cfg.Kind == kBreaker)
+		held = !adm || wait > 0
+	}
+	if !held || o.Failed() {
+		return
+	}
+	o.Probe("twin_rule_added_then_original_removed")
+	if yFirst {
+		loadIDs("Y", "X")
+	} else {
+		loadIDs("X", "Y")
+	}
+	loadIDs("Y")
+	adm, wait := request(false)
+	o.Nontrivial = true
+	if !adm || wait > 0 {
+		o.Fail("C14.unchanged-rule-took-over-state-of-removed-rule", 0, "rule X (kind %d) was driven until it held back the next request; rule Y, a field-for-field copy under its own ID, was added (listed %s X) and has never seen a request; then X was removed by a load that kept Y unchanged. The next request: admitted=%v wait=%v - Y decided it with the state of the removed rule X instead of its own", cfg.Kind, map[bool]string{true: "before", false: "after"}[yFirst], adm, wait)
 	}
 }
 
